@@ -633,6 +633,9 @@ class Grid:
 
         if isinstance(axis, str):
             axis = [axis]
+        else:
+            # axis is walked more than once below; an iterator would be exhausted after the first pass
+            axis = list(axis)
 
         # This function is restricted to a single data input, so we need to check the input validity
         # here early.
